@@ -469,12 +469,12 @@ def stepShp (st : DState) (cmd : String) (args : List String) : DState × String
   -- shp.loop s1 | s2 | ...      (each shape: space separated dims, "()" for a 0-d scalar)
   | "shp.loop" =>
       match (splitBar args).mapM parseShape? with
-      | some shapes => (st, showShape (loopShape shapes))
+      | some shapes => (st, showShape (loopShapeGen shapes))
       | none => (st, "bad-op")
   -- shp.out loop | out
   | "shp.out" =>
       match (splitBar args).mapM parseShape? with
-      | some [l, o] => (st, showShape (outShape l o))
+      | some [l, o] => (st, showShape (outShapeGen l o))
       | _ => (st, "bad-op")
   | _ => (st, "bad-op")
 
